@@ -98,3 +98,138 @@ mod tests {
         assert_eq!(got, vec![(Some("b".to_string()), vec![1, 4]), (None, vec![2]), (Some("a".to_string()), vec![3])]);
     }
 }
+
+// ------------------------------------------------------------------------------------------------
+/// Model of `std::collections::HashMap<K, V>`: a finite function K -> V (no hashing, no RandomState).
+/// Iteration order: insertion order (std promises no order at all; kernels whose result depends on
+/// it are outside any claim made with this model).
+pub struct HashMap<K, V> {
+    items: bvec::Vec<(K, V)>,
+}
+impl<K: Eq, V> HashMap<K, V> {
+    pub fn new() -> Self {
+        HashMap { items: bvec::Vec::new() }
+    }
+    pub fn len(&self) -> usize {
+        self.items.len()
+    }
+    pub fn is_empty(&self) -> bool {
+        self.items.is_empty()
+    }
+    fn find<Q: ?Sized + Eq>(&self, k: &Q) -> Option<usize>
+    where
+        K: core::borrow::Borrow<Q>,
+    {
+        let mut i = 0;
+        while i < self.items.len() {
+            if self.items[i].0.borrow() == k {
+                return Some(i);
+            }
+            i += 1;
+        }
+        None
+    }
+    pub fn insert(&mut self, k: K, v: V) -> Option<V> {
+        match self.find(&k) {
+            Some(i) => Some(core::mem::replace(&mut self.items[i].1, v)),
+            None => {
+                self.items.push((k, v));
+                None
+            }
+        }
+    }
+    pub fn get<Q: ?Sized + Eq>(&self, k: &Q) -> Option<&V>
+    where
+        K: core::borrow::Borrow<Q>,
+    {
+        match self.find(k) {
+            Some(i) => Some(&self.items[i].1),
+            None => None,
+        }
+    }
+    pub fn get_mut<Q: ?Sized + Eq>(&mut self, k: &Q) -> Option<&mut V>
+    where
+        K: core::borrow::Borrow<Q>,
+    {
+        match self.find(k) {
+            Some(i) => Some(&mut self.items[i].1),
+            None => None,
+        }
+    }
+    pub fn contains_key<Q: ?Sized + Eq>(&self, k: &Q) -> bool
+    where
+        K: core::borrow::Borrow<Q>,
+    {
+        self.find(k).is_some()
+    }
+    pub fn remove<Q: ?Sized + Eq>(&mut self, k: &Q) -> Option<V>
+    where
+        K: core::borrow::Borrow<Q>,
+    {
+        match self.find(k) {
+            // a HashMap has no order: O(1) removal, no shifting
+            Some(i) => Some(self.items.swap_remove(i).1),
+            None => None,
+        }
+    }
+    pub fn clear(&mut self) {
+        self.items.clear()
+    }
+    pub fn iter(&self) -> impl Iterator<Item = (&K, &V)> {
+        self.items.iter().map(|kv| (&kv.0, &kv.1))
+    }
+    pub fn keys(&self) -> impl Iterator<Item = &K> {
+        self.items.iter().map(|kv| &kv.0)
+    }
+    pub fn values(&self) -> impl Iterator<Item = &V> {
+        self.items.iter().map(|kv| &kv.1)
+    }
+}
+impl<K: Eq, V> Default for HashMap<K, V> {
+    fn default() -> Self {
+        Self::new()
+    }
+}
+impl<K: core::fmt::Debug, V: core::fmt::Debug> core::fmt::Debug for HashMap<K, V> {
+    fn fmt(&self, f: &mut core::fmt::Formatter<'_>) -> core::fmt::Result {
+        f.debug_map().entries(self.items.iter().map(|kv| (&kv.0, &kv.1))).finish()
+    }
+}
+
+#[cfg(test)]
+mod hm_tests {
+    #[test]
+    fn hashmap_model_agrees_with_std_on_scripts() {
+        // every script of length <= 5 over {insert(k), remove(k), get(k)} with k in 0..3
+        fn rec(script: &mut Vec<(u8, u8)>, depth: usize, n: &mut usize) {
+            let mut m = super::HashMap::<u8, usize>::new();
+            let mut s = std::collections::HashMap::<u8, usize>::new();
+            for (i, (op, k)) in script.iter().enumerate() {
+                match op {
+                    0 => assert_eq!(m.insert(*k, i), s.insert(*k, i)),
+                    1 => assert_eq!(m.remove(k), s.remove(k)),
+                    _ => assert_eq!(m.get(k), s.get(k)),
+                }
+                assert_eq!(m.len(), s.len());
+                for kk in 0..3u8 {
+                    assert_eq!(m.get(&kk), s.get(&kk));
+                    assert_eq!(m.contains_key(&kk), s.contains_key(&kk));
+                }
+            }
+            *n += 1;
+            if depth == 0 {
+                return;
+            }
+            for op in 0..3 {
+                for k in 0..3 {
+                    script.push((op, k));
+                    rec(script, depth - 1, n);
+                    script.pop();
+                }
+            }
+        }
+        let mut n = 0;
+        rec(&mut vec![], 5, &mut n);
+        assert!(n > 60000);
+    }
+}
